@@ -384,6 +384,28 @@ theorem C20_tract_placement (p : Program) (r : Resolved) (h : resolve p = .ok r)
     obtain ⟨_, l, o, k⟩ := resolveFrames_ext (names := p.map (·.name)) (j := 0) (by simp) (by simp) h1
     exact ⟨l, fun k f f' a b => by simpa using o k f f' a b, k⟩
 
+
+/-- **Shared `by` markers**: needs of one framer that name the same `by` marker on the same share — in
+whatever frames they stand, with or without an `in frame` clause — resolve to the same Mark
+(same `(share, key)`), so they all see and reset one mark; without a `by` marker the key is the name of
+the frame the need names (its own frame when there is no clause). -/
+theorem C20_shared_by_marker (names : List String) (h1 h2 : Nat) (n1 n2 : NeedSrc) (d1 d2 : Need)
+    (r1 : NeedOf names h1 n1 d1) (r2 : NeedOf names h2 n2 d2)
+    (hs : n1.share = n2.share) (hb : n1.by_ = n2.by_) (hne : n1.by_ ≠ "") :
+    (d1.share, d1.key) = (d2.share, d2.key) ∧ d1.key = n1.by_ := by
+  obtain ⟨f1, _, e1⟩ := r1
+  obtain ⟨f2, _, e2⟩ := r2
+  subst e1; subst e2
+  have hne2 : n2.by_ ≠ "" := hb ▸ hne
+  simp [srcKey, hne, hne2, hs, hb]
+
+theorem C20_default_marker_key (names : List String) (home : Nat) (n : NeedSrc) (d : Need)
+    (r : NeedOf names home n d) (hb : n.by_ = "") :
+    ∃ fi, needFrame names home n.clause = .ok fi ∧ d.key = names.getD fi "" := by
+  obtain ⟨fi, hf, e⟩ := r
+  subst e
+  exact ⟨fi, hf, by simp [srcKey, hb]⟩
+
 /-- the marker acts of a taken transition: first one tract marker per guarding need (transit
 sub-context), then — after the exit acts — the enact markers of the far frame (enter context) -/
 theorem C20_fire_markers (r : Resolved) (near : Frame) (t : Trans) :
